@@ -1,4 +1,4 @@
-//! Compile-fail witnesses (type-level lemmas used by C12-R4, C13, C19-R3) with their compiling twins.
+//! Compile-fail witnesses (type-level lemmas used by C12-R4, C13-R3, C19-R3) with their compiling twins.
 //! Run with `cargo +nightly test --doc --offline` (error codes are only honoured on nightly).
 //! Each witness differs from its twin by the offending line only, so a witness that merely names a
 //! wrong path cannot pass.
@@ -44,3 +44,24 @@ pub struct PayloadIdNoLiteral;
 /// let _e = p.encoding_symbol_id();
 /// ```
 pub struct PayloadIdFieldsPrivate;
+
+/// The slab's length bookkeeping cannot be desynchronised from outside: the fields are private even where the
+/// type itself is exported (`benchmarking`) (C12-R4).
+/// ```compile_fail,E0616
+/// let mut s = raptorq::SymbolSlab::with_zeros(4, 16);
+/// s.symbol_size = 1 << 20;          // private field
+/// ```
+/// ```no_run
+/// let s = raptorq::SymbolSlab::with_zeros(4, 16);
+/// let _n = s.len();
+/// ```
+pub struct SlabFieldsPrivate;
+
+/// A slab cannot be built around the constructors with a struct literal (C12-R4).
+/// ```compile_fail,E0451
+/// let _s = raptorq::SymbolSlab { data: vec![0u8; 3], count: 4, symbol_size: 1 << 20, mapping: None };
+/// ```
+/// ```no_run
+/// let _s = raptorq::SymbolSlab::with_zeros(4, 16);
+/// ```
+pub struct SlabNoLiteral;
